@@ -46,13 +46,14 @@ def handleInvstore : Handler := fun i o => do
     | some ks =>
       let keys := sortStrs (ks.map String.ofList)
       match load ks with
-      | none => Json.mkObj [("storeErr", false), ("keys", strsToJson keys), ("loadErr", true), ("loaded", Json.arr #[])]
-      | some l => Json.mkObj [("storeErr", false), ("keys", strsToJson keys), ("loadErr", false), ("loaded", idsToJson (sortIds (l.map ofC)))]
+      | none => Json.mkObj [("storeErr", false), ("keys", strsToJson keys), ("loadErr", true), ("loaded", Json.arr #[]), ("fsmSame", true)]
+      | some l => Json.mkObj [("storeErr", false), ("keys", strsToJson keys), ("loadErr", false), ("loaded", idsToJson (sortIds (l.map ofC))), ("fsmSame", true)]
   -- property predicate on the implementation's behaviour alone
   let specOf (o : Json) : Except String Bool := do
     if (jopt o "panic").isSome then return false
     if (← jbool o "storeErr") then return true       -- rejected before anything is written
     if (← jbool o "loadErr") then return false       -- written but unreadable
+    if !(jboolD o "fsmSame" false) then return false  -- FromStringMap reads the same map differently
     let loaded ← idsOfJson (← jget o "loaded")
     let keys ← asList (← jget o "keys")
     let distinct := dedup ids
